@@ -6,9 +6,9 @@
    A helper invocation is turned into a PLAN (list of filesystem actions whose destinations are
    pure path computations); [exec] applies a plan to an image.  No proofs here.
 
-   The model describes the behaviour with the repairs of fixes/C33-*.patch applied (see
-   notes/C33.md); on a tree without them the harness classifies the disagreeing cases by the
-   decidable class predicates of known_findings/C33.json. *)
+   The model describes the code after the repairs of fixes/C33-*.patch (committed in /repo, see
+   notes/C33.md); disagreeing cases are classified by the decidable class predicates of
+   harness/c33.py against known_findings/C33.json. *)
 From Coq Require Import List NArith ZArith Bool Arith.
 From Coq Require String Ascii.
 Import String.StringSyntax.
